@@ -1066,6 +1066,32 @@ def _index_forms(model, rep):
                      f"an array of the indices 0 and 1 - "
                      f"remove_elements(mask) removes exactly cells 0 and 1, "
                      f"silently", fn.lineno)
+        # ... and a mask given as a *tag* (with_subdomains({'s': mask})) is
+        # read by every consumer of the tag tables (restrict, save,
+        # to_dict, repr) as an index array: it has to be converted where it
+        # is stored, not only where one consumer looks it up
+        wname = {"normalize_elements": "with_subdomains",
+                 "normalize_facets": "with_boundaries"}.get(name)
+        if wname is not None:
+            wf = mcls.methods[wname]
+            alts = [x for x in ast.walk(wf.node) if isinstance(x, ast.IfExp)
+                    and isinstance(x.test, ast.Call)
+                    and src(x.test.func) == "callable"]
+            if len(alts) != 1:
+                raise AnalysisError(f"Mesh.{wname}: stored value not found")
+            stored = alts[0].orelse
+            cons = f"Mesh.{wname}:boolean-mask-stored-as-indices"
+            if isinstance(stored, ast.Call):
+                rep.ok(R4, cons, f"a non-callable value is stored through "
+                                 f"{src(stored.func)}")
+            else:
+                rep.fail(R4, wf.path, f"Mesh.{wname}", cons,
+                         f"a non-callable tag value is stored as given: a "
+                         f"Boolean mask then sits in the tag table, where "
+                         f"restrict, remove_elements, save, to_dict and repr "
+                         f"read it as the indices 0 and 1 (16 of 32 cells "
+                         f"tagged: restrict keeps 2, the saved file holds "
+                         f"2)", alts[0].lineno)
         cats = [c for c in walk_no_nested(fn.node) if isinstance(c, ast.Call)
                 and src(c.func) in ("np.concatenate", "np.hstack")
                 and c.args]
@@ -1233,6 +1259,14 @@ _D = "skfem/assembly/dofs.py"
 _AB = "skfem/assembly/basis/abstract_basis.py"
 _M = "skfem/mesh/mesh.py"
 MUTANTS = [
+    ("subdomain tags store Boolean masks as given and look them up "
+     "unchanged",
+     [(_M, "                          if callable(test) else "
+       "self._mask_to_indices(test))",
+       "                          if callable(test) else test)"),
+      (_M, "                return self._mask_to_indices("
+       "self.subdomains[elements])",
+       "                return self.subdomains[elements]")], "C07-R4"),
     ("element selector passes Boolean masks through",
      (_M, "            if elements.dtype == bool:\n                # a mask of "
       "the elements\n                return np.nonzero(elements)[0].astype("
@@ -1256,7 +1290,9 @@ MUTANTS = [
      (_M, "        atol = self._shortest_edge() / 1e2\n",
       "        atol = np.min(self.params()) / 1e2\n"), "C07-R4"),
     ("vertex named by coordinates matched with an absolute tolerance",
-     (_M, "            tol = 1e-6 * self._shortest_edge()\n",
+     (_M, "            tol = max(1e-6 * self._shortest_edge(),\n"
+      "                      8 * np.finfo(np.float64).eps * "
+      "np.abs(self.p).max())\n",
       "            tol = 1e-12\n"), "C07-R4"),
     ("shortest edge measured from the origin",
      (_M, "        return np.min(np.linalg.norm(np.diff(self.p[:, ed], "
